@@ -44,7 +44,10 @@ type World struct {
 	OtherDER [][]byte // an unrelated CSCA (another country), for multi-pool stores
 	AAKey    *refpki.Key
 	MRZInfo  string
-	aaSigs   map[string][]byte
+	// NoMemo: do not memoise chip signatures (free-running pass: the memo table would be harness state
+	// shared between goroutines).
+	NoMemo bool
+	aaSigs map[string][]byte
 }
 
 // NewWorld builds the document: DG1 (TD3), DG2 (face), DG7 (signature image), DG11, DG15 (EC P-256 active
@@ -124,15 +127,19 @@ func (w *World) NewChip() *Chip {
 // aaSign is the chip's active authentication signature (ecdsa-plain over SHA-256 of RND.IFD), memoised:
 // it is a deterministic function of the challenge.
 func (w *World) aaSign(ch []byte) []byte {
-	if s, ok := w.aaSigs[string(ch)]; ok {
-		return s
+	if !w.NoMemo {
+		if s, ok := w.aaSigs[string(ch)]; ok {
+			return s
+		}
 	}
 	d := sha256.Sum256(ch)
 	r, s := w.AAKey.EC.SignDigest(d[:])
 	out := make([]byte, 64)
 	r.FillBytes(out[:32])
 	s.FillBytes(out[32:])
-	w.aaSigs[string(ch)] = out
+	if !w.NoMemo {
+		w.aaSigs[string(ch)] = out
+	}
 	return out
 }
 
@@ -272,8 +279,9 @@ func Permutations(n int) [][]int {
 
 // Reference is the set of outcomes of all sequential orders of the same calls.
 type Reference struct {
-	ByKey  map[string][]int // outcome key -> one order that produces it
-	PerCal []map[string]bool
+	ByKey   map[string][]int  // outcome key -> one order that produces it
+	LabelOf map[string]string // outcome key -> readable name of the first sequential order that produces it
+	PerCal  []map[string]bool
 }
 
 func NewReference() *Reference { return &Reference{ByKey: map[string][]int{}} }
